@@ -1034,7 +1034,7 @@ pub fn withdrawals(g: &mut Gen) -> Withdrawals {
     let n = g.small(4);
     let mut items: Vec<(RewardAddress, BigNum)> = (0..n).map(|_| (reward_address(g), g.coin())).collect();
     if g.ascending {
-        items.sort_by(|a, b| a.0.to_address().to_bytes().cmp(&b.0.to_address().to_bytes()));
+        items.sort_by(|a, b| a.0.cmp(&b.0));
     }
     for (a, c) in items {
         w.insert(&a, &c);
